@@ -508,22 +508,32 @@ def _main(prop, prop_mod, tier, seed, ns, t0):
                     print(f"replay {rel}: {v.clause}: {str(v.detail)[:1500]}")
                     violations.append((v.clause, str(v.detail), path))
 
-    # 2. extra tiers (enumerations, live tiers, schedules).
-    for name, fn in prop.extra_tiers:
-        st = Stats()
-        fn(tier, seed, st)
-        stats.merge(st)
+    broke = None
+    try:
+        # 2. extra tiers (enumerations, live tiers, schedules).
+        for name, fn in prop.extra_tiers:
+            st = Stats()
+            fn(tier, seed, st)
+            stats.merge(st)
 
-    # 3. generated search.
-    budget = ns.budget or prop.budgets[tier]
-    nshards = ns.shards or prop.shards or min(16, os.cpu_count() or 1)
-    if budget > 0:
-        custom = getattr(prop, "search", None)
-        if custom is not None:
-            st = custom(prop, prop_mod, tier, seed, budget, nshards)
-        else:
-            st = run_search(prop, prop_mod, tier, seed, budget, nshards)
-        stats.merge(st)
+        # 3. generated search.
+        budget = ns.budget or prop.budgets[tier]
+        nshards = ns.shards or prop.shards or min(16, os.cpu_count() or 1)
+        if budget > 0:
+            custom = getattr(prop, "search", None)
+            if custom is not None:
+                st = custom(prop, prop_mod, tier, seed, budget, nshards)
+            else:
+                st = run_search(prop, prop_mod, tier, seed, budget, nshards)
+            stats.merge(st)
+    except HarnessError as e:
+        # the machinery broke down *after* the replay tier had already shown
+        # a violation on this tree: report that violation (exit 1) and say
+        # what broke; with no violation in hand this stays a harness error
+        if not violations:
+            raise
+        broke = e
+        print(f"HARNESS-ERROR (after {len(violations)} violation(s) had been found): {str(e)[-600:]}")
 
     seen = set()
     for clause, detail, case_json in stats.failures:
